@@ -27,9 +27,10 @@ pub fn run(case: &Value, em: &mut Emitter) {
 
 // ---------------------------------------------------------------- random documents
 pub struct Pools;
-pub const SRC_POOL: &[&str] = &["a.js", "", "/abs/x.js", "http://h/y.js", "https://h/z.js", "httpx.js", "dir/b.js", "a.js", "ünï.js", "http:", "/"];
+// (the pools contain the strings the crate itself uses as placeholders: "<invalid>", "<unknown>", "~")
+pub const SRC_POOL: &[&str] = &["a.js", "", "/abs/x.js", "http://h/y.js", "https://h/z.js", "httpx.js", "dir/b.js", "a.js", "ünï.js", "http:", "/", "<unknown>", "~", "A.js"];
 pub const ROOT_POOL: &[&str] = &["", "r", "r/", "/", "webpack:///", "http://cdn/x", "r//"];
-pub const NAME_POOL: &[&str] = &["foo", "", "bar", "foo", "\"q\"", "naïve", "𝒳", "a\\b", "\n"];
+pub const NAME_POOL: &[&str] = &["foo", "", "bar", "foo", "\"q\"", "naïve", "𝒳", "a\\b", "\n", "<invalid>", "<unknown>", "Foo", "~"];
 /// JSON numbers in shortest form: 53/54-bit neighbours, 64-bit extremes, negative, fractions, a large exponent-free float
 pub const NUM_LITS: &[&str] = &["9007199254740993", "9007199254740992", "18446744073709551615", "-9223372036854775808", "4294967296", "-1",
                                 "1.0", "2.5", "0.1", "-0.5", "123456789.125"];
